@@ -80,6 +80,15 @@ impl Merger {
                     file_id,
                     format!("The name `{definition_name}` is already used."),
                 );
+                // The first definition is a location of the report as well, so that the report
+                // is displayed whenever one of the two definitions is in a user-specified file.
+                if let Some((first_file_id, first_location)) = self.definition_site(definition_name) {
+                    report.add_primary(
+                        first_location,
+                        first_file_id,
+                        format!("The parameters of the first definition of `{definition_name}`."),
+                    );
+                }
                 reports.push(report);
             }
         }
@@ -87,6 +96,15 @@ impl Merger {
             Ok(())
         } else {
             Err(reports)
+        }
+    }
+    fn definition_site(&self, name: &str) -> Option<(FileID, super::file_definition::FileLocation)> {
+        if let Some(template) = self.template_info.get(name) {
+            Some((template.get_file_id(), template.get_param_location()))
+        } else {
+            self.function_info
+                .get(name)
+                .map(|function| (function.get_file_id(), function.get_param_location()))
         }
     }
     pub fn contains_function(&self, function_name: &str) -> bool {
